@@ -150,3 +150,29 @@ Theorem C06_join_outputs_ledger :
               (produced_in P init_state ops).
 Proof. exact join_token_ledger. Qed.
 Print Assumptions C06_join_outputs_ledger.
+
+(** a destructor that panics (finding F10; JoinPanic.v, a model of its own: the executable model
+    has no panics).  Whatever the number of inputs, the order in which they complete and the
+    choice of inputs whose destructor panics: if the output is stored before the future is
+    destroyed, a vacant slot always has a written cell (so Drop never drops an unwritten cell),
+    and if it is also stored before the slot map counts the future out, a count of zero means
+    every cell is written (so the result never holds an unwritten cell) *)
+From FB Require Import JoinPanic.
+Theorem C06_output_stored_before_the_future_is_destroyed_is_drop_safe :
+  forall (n : nat) (ms : list mstep) (s : jst),
+  before MWrite MVacate ms = true -> reach n ms s -> DS n s.
+Proof. exact write_before_vacate_is_drop_safe. Qed.
+Print Assumptions C06_output_stored_before_the_future_is_destroyed_is_drop_safe.
+
+Theorem C06_output_stored_first_is_resolution_safe :
+  forall (n : nat) (ms : list mstep) (s : jst),
+  safe_order ms = true -> reach n ms s -> RS n s.
+Proof. exact write_before_count_is_resolution_safe. Qed.
+Print Assumptions C06_output_stored_first_is_resolution_safe.
+
+(** the order before fix 2550a01 (destroy, count, store): one input whose destructor panics
+    leaves a vacant slot with an unwritten cell *)
+Theorem C06_old_order_drops_an_unwritten_cell :
+  exists s, reach 1 old_order s /\ occ s 0 = false /\ wr s 0 = false.
+Proof. exact old_order_drops_an_unwritten_cell. Qed.
+Print Assumptions C06_old_order_drops_an_unwritten_cell.
